@@ -53,6 +53,7 @@ const (
 	LStdJoin1
 	LUserMulti1
 	LJoinNested
+	LJoinWide
 	// wrappers
 	WMessage
 	WWrap
@@ -90,7 +91,7 @@ const (
 )
 
 var kindNames = [...]string{"New", "NewfUnsafe", "NewfSafe", "Std", "Pkg", "CtxCanceled", "CtxDeadline", "OsNotExist", "EOF", "Errno", "Unimpl", "Assert",
-	"UserPlain", "UserFmt", "UserSafeFmt", "UserNonComparable", "UserIs", "Proto", "Handled", "HandledMsg", "Join", "StdJoin", "FmtMulti", "StdJoin1", "UserMulti1", "JoinNested",
+	"UserPlain", "UserFmt", "UserSafeFmt", "UserNonComparable", "UserIs", "Proto", "Handled", "HandledMsg", "Join", "StdJoin", "FmtMulti", "StdJoin1", "UserMulti1", "JoinNested", "JoinWide",
 	"WithMessage", "Wrap", "Wrapf", "NewfW", "WithStack", "WithHint", "WithDetail", "WithSafeDetails", "WithTelemetry", "WithDomain", "WithIssueLink", "WithTags",
 	"WithAssertionFailure", "Mark", "WithSecondary", "HTTPCode", "GrpcCode", "PkgWithMessage", "PkgWithStack", "FmtPrefix", "FmtSuffix", "PathError", "LinkError",
 	"SyscallError", "OpError", "UserPrefix", "UserFull", "UserFmt", "UserSafeFmt", "HandledInDomain", "NewfWExtra", "UserGlue"}
@@ -102,7 +103,7 @@ var (
 	LibLeaves     = []Kind{LNew, LNewfUnsafe, LNewfSafe, LUnimpl, LAssert}
 	ForeignLeaves = []Kind{LStd, LPkg, LCtxCanceled, LCtxDeadline, LOsNotExist, LEOF, LErrno, LUserPlain, LUserFmt, LUserSafeFmt, LUserNonComparable, LUserIs, LProto}
 	BarrierLeaves = []Kind{LHandled, LHandledMsg}
-	MultiLeaves   = []Kind{LJoin, LStdJoin, LFmtMulti, LStdJoin1, LUserMulti1, LJoinNested}
+	MultiLeaves   = []Kind{LJoin, LStdJoin, LFmtMulti, LStdJoin1, LUserMulti1, LJoinNested, LJoinWide}
 	SimpleLeaves  = []Kind{LNew, LNewfUnsafe, LStd, LUserPlain}
 	BranchLeaves  = []Kind{LNew, LNewfUnsafe, LStd, LUserPlain, LCtxCanceled}
 
@@ -419,6 +420,17 @@ func (g *G) LeafOf(name string, k Kind) *B {
 		b.Err, b.Text = &UserMulti{Msg: "um", Errs: []error{x.Err}}, "um"
 		b.Multi = []*B{x}
 		b.Unsafe, b.Safe = x.Unsafe, x.Safe
+	case LJoinWide:
+		// five direct causes (fan-out shaped)
+		x := g.Leaf(name+".a", BranchLeaves)
+		rest := []error{errors.New("b"), stderrors.New("c"), context.Canceled, errors.New("e")}
+		b.Err = errors.Join(append([]error{x.Err}, rest...)...)
+		b.Text = x.Text + "\nb\nc\n" + context.Canceled.Error() + "\ne"
+		b.Multi = []*B{x}
+		for _, r := range rest {
+			b.Multi = append(b.Multi, &B{Err: r, Text: r.Error(), Leaf: errors.UnwrapAll(r)})
+		}
+		b.Unsafe, b.Safe = x.Unsafe, x.Safe
 	case LJoinNested:
 		// a multi-cause node nested, below a wrapper, in a branch of another one
 		x := g.Leaf(name+".a", BranchLeaves)
@@ -653,7 +665,7 @@ func (g *G) BuildUpTo(name string, d int, leaves, wrappers []Kind) *B {
 // Representatives: one kind per behaviour class (used for the inner layers of
 // deeper recipes and for the quick tier).
 var (
-	RepLeaves   = []Kind{LNew, LNewfUnsafe, LStd, LCtxCanceled, LErrno, LUserPlain, LUserIs, LUserNonComparable, LHandled, LHandledMsg, LJoin, LStdJoin1, LFmtMulti, LJoinNested, LPkg}
+	RepLeaves   = []Kind{LNew, LNewfUnsafe, LStd, LCtxCanceled, LErrno, LUserPlain, LUserIs, LUserNonComparable, LHandled, LHandledMsg, LJoin, LStdJoin1, LFmtMulti, LJoinNested, LJoinWide, LPkg}
 	RepWrappers = []Kind{WWrap, WWrapf, WNewfW, WNewfWExtra, WHint, WDetail, WTelemetry, WSafeDetails, WDomain, WTags, WMark, WSecondary, WGrpc, WIssueLink, WFmtSuffix, WUserFull, WUserPrefix, WUserGlue, WPathError, WPkgMsg}
 )
 
